@@ -26,7 +26,7 @@ def jobs(tier):
         J.append(Job('K-floor1-p%d-d%d-s%d-%s'%(parts,cdim,csub,'sym' if pl is None else 'L%d'%pl),'C01/k_floor1.c',defs=['-DPARTS=%d'%parts,'-DCDIM=%d'%cdim,'-DCSUB=%d'%csub]+([] if pl is None else ['-DPL=%d'%pl]),unwind=posts+3,unwindset=[('ov_ilog',None,34)],checks=['leak'],object_bits=10,flags=['--no-undefined-shift-check'],
             witnesses=(['decoded','unused or end of packet'] if pl is None else ['decoded, values in range','a post declined (flag unset)','decoded, out-of-range amplitudes','unused or end of packet']),models=['M-bitsrc','M-libc qsort (insertion sort on <=%d pointers)'%posts,'vorbis_book_decode cut: consumes 1..32 bits, arbitrary entry number / end of packet, records the book'],
             functions=['floor1_look','floor1_inverse1','render_point','floor1_free_look'],bounds='%d partition(s) of class 0, dimension %d, %d subclass bits => %d posts; %s; book outputs 0..2^24-1; left shift of a negative room (out-of-range amplitudes) not checked (observation D26)'%(parts,cdim,csub,posts,'positions symbolic, distinct, < 64 (look tables, book order, memory safety)' if pl is None else 'concrete post layout %d, value oracle'%pl),weight=3))
-    for x0,x1,nm in ([(0,7,9),(2,9,8)] if q else [(0,7,9),(2,9,8),(0,16,16),(5,6,8),(1,13,10)]):
+    for x0,x1,nm in ([(0,8,9),(2,8,8)] if q else [(0,8,9),(2,8,8),(0,16,16),(5,6,8),(1,13,10),(0,12,12),(3,10,12)]):   # composite lengths: err==adx occurs inside the line
         J.append(Job('f1-line-%d-%d'%(x0,x1),'C01/f1_render.c',defs=['-DWHICH=0','-DNMAX=%d'%nm,'-DX0=%d'%x0,'-DX1=%d'%x1],unwind=nm+2,witnesses=['line drawn']+(['falling line, several steps'] if x1-x0>3 else []),functions=['render_line'],models=[],
             bounds='line from x=%d to x=%d, n 0..%d, both amplitudes 0..255'%(x0,x1,nm),weight=2))
     for posts,nh in ([(4,16),(4,64)] if q else [(4,16),(4,64),(5,16),(5,64)]):
